@@ -466,6 +466,8 @@ def c03(tier, rng, fam='C03'):
             b.step('recv', c=1, n=2)
             b.step('trl', c=1)
             out.append(b.q().done())
+    from . import gen2 as _g2
+    out += _g2.late_body_before_trailer(fam)
     # a handler that outlives the deadline its request carried while its caller (a peer without a deadline of its own:
     # only the header says so) is still listening: what the handler returns is what is written - success included
     for kind in ('unary', 'bidi'):
